@@ -19,26 +19,53 @@ vars == <<tid, l, S, verdict, done>>
 Ok(s)   == [S |-> s, why |-> ""]
 Fail(c) == [S |-> S, why |-> c]
 
+\* clauses are <<property, name, condition>>; a check run for one property (prog.own) evaluates that property's clauses only,
+\* so that a rejection belonging to another property does not end the trace before its own clauses were reached
+Mine(p) == Traces[tid].prog.own \in {"all", p}
 RECURSIVE FirstFail(_, _)
 FirstFail(cs, k) == IF k > Len(cs) THEN ""
-                    ELSE IF ~cs[k][2] THEN cs[k][1] ELSE FirstFail(cs, k + 1)
+                    ELSE IF Mine(cs[k][1]) /\ ~cs[k][3] THEN cs[k][2] ELSE FirstFail(cs, k + 1)
 
 SetOf(q) == {q[i] : i \in 1..Len(q)}
 
-InitS == [prevT |-> -1, prevNext |-> -1, ended |-> FALSE]
+InitS == [prevT |-> -1, prevNext |-> -1, ended |-> FALSE,
+          pend |-> {},      \* <<graph instance, node index, time, tag>>: wake-ups requested by nodes of any live graph instance
+          root |-> -1,      \* the root graph's instance id
+          final |-> {}]     \* what was still pending when the root graph began to stop
 
 OnSlots(e) ==
     LET gs == SetOf(e.gs)
         why == FirstFail(<<
-          <<"C02.root_cycle_later_than_the_cached_next_scheduled_time", S.prevNext < 0 \/ e.t <= S.prevNext>>,
-          <<"C09.child_clock_ahead_of_its_parent", \A x \in gs : x.pg < 0 \/ \A p \in gs : p.g = x.pg => x.et <= p.et>>,
-          <<"C02.pending_entry_of_the_root_before_its_next_scheduled_time", UncoveredRoot(e.t, gs) = {}>>,
-          <<"C09.pending_work_of_a_child_graph_not_covered_by_its_parent_node", UncoveredNested(e.t, gs) = {}>> >>, 1)
+          <<"C02", "C02.root_cycle_later_than_the_cached_next_scheduled_time", S.prevNext < 0 \/ e.t <= S.prevNext>>,
+          <<"C09", "C09.child_clock_ahead_of_its_parent", \A x \in gs : x.pg < 0 \/ \A p \in gs : p.g = x.pg => x.et <= p.et>>,
+          <<"C02", "C02.pending_entry_of_the_root_before_its_next_scheduled_time", UncoveredRoot(e.t, gs) = {}>>,
+          <<"C09", "C09.pending_work_of_a_child_graph_not_covered_by_its_parent_node", UncoveredNested(e.t, gs) = {}>>,
+          <<"C02", "C02.wakeup_requested_inside_a_graph_instance_not_honoured_at_its_time", \A p \in S.pend : p[3] > e.t>> >>, 1)
         root == CHOOSE x \in gs : x.pg < 0
-    IN IF why # "" THEN Fail(why) ELSE Ok([S EXCEPT !.prevT = e.t, !.prevNext = root.next])
+    IN IF why # "" THEN Fail(why)
+       ELSE Ok([S EXCEPT !.prevT = e.t, !.prevNext = root.next])
+
+\* a node of some graph instance (root, nested, or a dynamically created child) asks to be woken at e.at; a tagged request
+\* replaces the node's earlier request with the same tag
+OnReq(e) == IF e.at <= e.t THEN Ok(S)
+            ELSE Ok([S EXCEPT !.pend = {p \in @ : ~(e.tag # "" /\ p[1] = e.g /\ p[2] = e.n /\ p[4] = e.tag)} \cup {<<e.g, e.n, e.at, e.tag>>}])
+\* the engine gives the node its turn at time e.t
+OnEval(e) == Ok([S EXCEPT !.pend = {p \in @ : ~(p[1] = e.g /\ p[2] = e.n /\ p[3] = e.t)}])
+\* a graph instance that stops (a removed key, a de-selected branch, the end of the run) takes its requests with it
+OnGone(e) == IF e.e = "gstart" /\ e.pg < 0 THEN Ok([S EXCEPT !.root = e.g, !.pend = {p \in @ : p[1] # e.g}])
+             ELSE IF e.e = "gstop" /\ e.g = S.root THEN Ok([S EXCEPT !.final = S.pend, !.pend = {}])
+             ELSE Ok([S EXCEPT !.pend = {p \in @ : p[1] # e.g}])
+
+\* a run that returns normally has honoured every wake-up that fell inside its window
+OnRet(e) == IF Mine("C02") /\ e.ok = 1 /\ \E p \in S.final : p[3] < Traces[tid].prog.end
+            THEN Fail("C02.wakeup_requested_inside_a_graph_instance_dropped_at_the_end_of_the_run")
+            ELSE Ok([S EXCEPT !.ended = TRUE])
 
 Step(e) == CASE e.e = "slots" -> (IF \E x \in SetOf(e.gs) : x.pg < 0 THEN OnSlots(e) ELSE Ok(S))
-             [] e.e = "ret"   -> Ok([S EXCEPT !.ended = TRUE])
+             [] e.e = "req"   -> OnReq(e)
+             [] e.e = "eval"  -> OnEval(e)
+             [] e.e \in {"gstop", "gstart", "gstartfail"} -> OnGone(e)
+             [] e.e = "ret"   -> OnRet(e)
              [] OTHER         -> Ok(S)
 
 Init == /\ tid \in 1..Len(Traces)
